@@ -104,7 +104,7 @@ def invariant(h, ctx, t, label, graph_clause=True):
 
 
 OPS = ["forward", "inverse", "train", "eval", "use_cache_on", "use_cache_off", "optimizer_step", "load_state_dict", "load_state_dict_via_parent",
-       "dtype_roundtrip", "to_double"]
+       "dtype_roundtrip", "to_double", "to_double_inverse"]
 
 
 def cache_harness(cname, op, training, using, pat):
@@ -172,6 +172,10 @@ def cache_harness(cname, op, training, using, pat):
             t.double()
             x64 = h.inp("x64", xshape, torch.float64)
             res = t.forward(x64); ref = uncached(t.forward, x64)
+        elif op == "to_double_inverse":
+            t.double()
+            x64 = h.inp("x64", xshape, torch.float64)
+            res = t.inverse(x64); ref = uncached(t.inverse, x64)
         return res, ref
 
     def post(h, ctx, value):
@@ -229,7 +233,7 @@ def cache_harness(cname, op, training, using, pat):
                     for p, q in zip(t.parameters(), t2.parameters()): p.copy_(q)
                 hist.append("optimizer step")
             out["pair_f"] = (t.forward(x), t.forward_no_cache(x)); out["pair_i"] = (t.inverse(x), t.inverse_no_cache(x))
-        elif op in ("dtype_roundtrip", "to_double"):
+        elif op in ("dtype_roundtrip", "to_double", "to_double_inverse"):
             t.double(); hist.append("double()")
             if op == "dtype_roundtrip":
                 t.float(); hist.append("float()"); xx = x
